@@ -22,6 +22,7 @@ def run(group, func, quick=None, thorough=None, tier="", note=""):
 groups = {
     "root": {"pkg": ".", "hdir": "harness/root", "tags": ""},
     "s3": {"pkg": "s3", "hdir": "harness/s3", "tags": ""},
+    "internal": {"pkg": "internal", "hdir": "harness/internal", "tags": ""},
 }
 
 props = {}
@@ -139,6 +140,8 @@ claims = {
             "S3 semantics, a single clock and distinct owners are assumptions.", "DESIGN.md 5 (C20), Appendix D.5"),
     "C17": ("The real writeLTXFromWAL is executed for all 8 page sizes with the previous and new commit sizes each ranging over lock-3..lock+3 and every subset of the four pages next to the lock page present in the WAL: no error, pages ascending and once, the lock page never encoded, a page encoded iff it is in the WAL or in the growth range. The real writeLTXFromDB runs its loop over a sparse database ending at lock-2..lock+2 (page sizes 65536 and 32768 quick; down to 4096 thorough): no error and every page except the lock page is encoded in order. In both, the real ltx.Encoder validates each page.",
             "Page images are zeros; SQLite never writes the lock page.", "DESIGN.md 5 (C17)"),
+    "C10": ("The real ResumableReader.Read/retry/close and LimitedReadCloser.Read run against a stream and opener that choose, at every call, how many bytes to return and whether to succeed, end early or fail: the bytes handed to the caller are always the file's prefix, io.EOF appears only at the end of a file of known size, every reopen asks for exactly the delivered offset, at most three reconnects happen silently and an exhausted budget is permanent. The real Replica.Restore runs over replicas with a missing, truncated, undersized or unopenable file and an output side where every file-system call may fail: an existing output is refused untouched, damage is an error with no output, the output appears only by renaming a flushed and closed temp file, on error it is absent or the complete correct database, the temp file never survives, success means the correct database, and a failed integrity check removes the output.",
+            "CRC-64 detection of flipped bytes is trusted, not decided.", "DESIGN.md 5 (C10)"),
 }
 na_reasons = {
     "C12": "quantifies over goroutine interleavings and the Go memory model; a sequential SSA symbolic interpreter cannot soundly decide races or deadlocks and no concurrency-aware engine for Go exists in this image (DESIGN.md 6)",
@@ -267,9 +270,28 @@ props["C17"] = {
     "outside": ["snapshot loop for page sizes 512-2048 (2M-524k iterations each; same code, only longer)", "compaction and restore of such databases (ltx.Compactor / DecodeDatabaseTo skip the lock page by the same comparison)", "VFS reads across the lock page"],
 }
 
+props["C10"] = {
+    "level": "model_checking", "validate": 6,
+    "runs": [
+        run("internal", "VxC10Reader", {"S": 3, "READS": 4, "OPENS": 4}, {"S": 4, "READS": 5, "OPENS": 5}),
+        run("internal", "VxC10Limited", {}, {}),
+        run("root", "VxC10Restore", {}, {}),
+        run("root", "VxC10Integrity", {}, {}),
+    ],
+    "assumptions": [
+        "a storage stream is honest about bytes (it returns the file's bytes at its position) but may return any count up to the buffer, end early or fail at every Read; every reopen may succeed, report not-exist or fail",
+        "corruption detection proper (flipped bytes) is CRC-64 inside superfly/ltx and is trusted; the check covers structural damage (missing file, truncation at 0, 1/4, 1/2, 3/4 of the file, size below the header size, opens that always fail) and that every decoder error is propagated",
+        "environment cut: checkIntegrity (SQLite PRAGMA integrity_check) is replaced by a stand-in with an arbitrary verdict",
+        "file-system operations of the output side may each fail (fault decisions); counterexamples that need an injected fault are confirmed by concrete re-execution of the real SSA instead of a native run",
+    ],
+    "stubs": ["LTXFileOpener / stream mock with per-call outcomes", "ReplicaClient mock serving damaged files", "file-system model with fault injection", "checkIntegrity stand-in (source rewrite)", "time.After ready immediately", "codec model as in C06"],
+    "outside": ["bit flips inside an LTX file (CRC-64, trusted)", "more than one kind of damage at once", "RestoreV3's skeleton (C19)"],
+}
+
 rewrites = [
     {"file": "replica.go", "from": "func checkpointV3(", "to": "func checkpointV3Real("},
     {"file": "replica.go", "from": "func (r *Replica) applyLTXFile(", "to": "func (r *Replica) applyLTXFileReal("},
+    {"file": "replica.go", "from": "func checkIntegrity(", "to": "func checkIntegrityReal("},
 ]
 
 spec = {"repo": "/repo", "groups": groups, "properties": props, "rewrites": rewrites}
